@@ -46,6 +46,23 @@ def generate(ctx):
         ids = (ctx.add('convert_to_comparable %s' % ea).id, ctx.add('convert_to_comparable %s' % eb).id,
                ctx.add('compare %s %s' % (ea, eb)).id)
         ctx.pairs.append((a, b, ids))
+    # numbers of every width and sign against each other (both zeros, fractions next to integers, the 64-bit limits),
+    # at top level and at the deciding position inside a container
+    nums = [('i', x) for x in gen.INT_POOL] + [('u', x) for x in gen.UINT_POOL] + [('d', x) for x in gen.FLOAT_POOL + gen.SPECIAL_FLOATS[:3]]
+    zeros = [('d', gen.float_to_bits(-0.0)), ('d', 0), ('u', 0), ('i', 0)]
+    pairs = [(x, y) for x in zeros for y in zeros + [('i', -1), ('d', gen.float_to_bits(-0.5)), ('d', gen.float_to_bits(5e-324)), ('d', gen.float_to_bits(-5e-324)), ('u', 1)]]
+    for _ in range(ctx.scale(800, 30000)):
+        pairs.append((r.choice(nums), r.choice(nums)))
+    for j, (x, y) in enumerate(pairs):
+        for a, b in ((x, y), (y, x)):
+            if j % 3 == 1:
+                a, b = ('a', [('s', b'p'), a]), ('a', [('s', b'p'), b])
+            elif j % 3 == 2:
+                a, b = ('o', [(b'k', a)]), ('o', [(b'k', b)])
+            ea, eb = gen.hexarg(gen.enc(a)), gen.hexarg(gen.enc(b))
+            ids = (ctx.add('convert_to_comparable %s' % ea).id, ctx.add('convert_to_comparable %s' % eb).id,
+                   ctx.add('compare %s %s' % (ea, eb)).id)
+            ctx.pairs.append((a, b, ids))
 
 
 def judge(ctx):
